@@ -238,3 +238,18 @@ package protocol
 //@   loop 1:
 //@     invariant (nxtHeader == i.NextHeader && n == 40) || (i.HbhHeader != nil && nxtHeader == nh1(i) && n == 40 + hlen(i)) || (i.RoutingHeader != nil && nxtHeader == nh2(i) && n == 40 + hlen(i) + rlen(i)) || (i.FragmentHeader != nil && nxtHeader == nh3(i) && n == 40 + hlen(i) + rlen(i) + flen(i))
 //@     decreases 2*ite(nxtHeader == 0, 3, ite(nxtHeader == 43, 2, ite(nxtHeader == 44, 1, 0))) + ite(checkExtHeader, 1, 0)
+
+//@ func NewHopByHopHeader() (r)
+//@   inline
+//@   ensures r != nil
+//@ func NewRoutingHeader() (r)
+//@   inline
+//@   ensures r != nil
+//@ func NewIGMPv3Query(group, maxResponseTime, queryInterval, sources) (r) [C09]
+//@   inline
+//@   requires len(sources) <= 65535
+//@   ensures r != nil && wf(r)
+//@ func NewIGMPv3Report(groups) (r) [C09]
+//@   inline
+//@   requires len(groups) <= 65535 && allwf(groups)
+//@   ensures r != nil && wf(r)
